@@ -104,7 +104,9 @@ fn faulty(r: &mut crate::gen::Rng, f: u64) -> Rec {
             let vendor = if r.bool() { r.range(1, 10) as u16 } else { r.u16b().max(1) };
             let attr = r.range(0, 45) as u16;
             let hidden = r.chance(1, 4);
-            Rec { bytes: wire::raw_record(attr, hidden, vendor, &r.bytes_range(0, 20), true), expect: Some(SErr::Vendor(vendor)), value: None, stops: false, fault: f }
+            let vendor = if r.chance(1, 4) { *r.pick(&[9u16, 311, 43, 529]) } else { vendor };
+            let mandatory = r.bool();
+            Rec { bytes: wire::raw_record(attr, hidden, vendor, &r.bytes_range(0, 20), mandatory), expect: Some(SErr::Vendor(vendor)), value: None, stops: false, fault: f }
         }
         7 => {
             let c = *r.pick(&[6u16, 7, 255, 65535]);
